@@ -23,6 +23,7 @@ type Mutant struct {
 	Replace  string `json:"replace"`
 	Expect   string `json:"expect"`
 	Note     string `json:"note"`
+	Count    int    `json:"count,omitempty"` // how often the anchor text occurs (default 1); the first occurrence is replaced
 	Tier     string `json:"tier,omitempty"` // "whole": evaluated with the whole-program rules (HAQQCHECK_WHOLE=1)
 	Extra    []struct {
 		Find    string `json:"find"`
@@ -121,7 +122,11 @@ func runMutants(repo, verif string, ms []Mutant, parallel int) []mutantResult {
 				res.Status, res.Detail = "not-applicable", "file missing"
 				return
 			}
-			if strings.Count(string(b), m.Find) != 1 {
+			wantN := 1
+			if m.Count > 0 {
+				wantN = m.Count
+			}
+			if strings.Count(string(b), m.Find) != wantN {
 				res.Status, res.Detail = "not-applicable", fmt.Sprintf("anchor text occurs %d times", strings.Count(string(b), m.Find))
 				return
 			}
